@@ -37,15 +37,19 @@ class Boom(Exception):
 
 
 # ====================================================================================== WSGI event stream on threads
-def run_wsgi_sse(prefix, n_items, raise_at, consume, line_points, max_timeouts, empty_at=None, cleanup_raises=False, streams=1, shared=False, saturated=False):
+def run_wsgi_sse(prefix, n_items, raise_at, consume, line_points, max_timeouts, empty_at=None, cleanup_raises=False, streams=1, shared=False, saturated=False, hold=0.0):
     """One execution of `streams` WSGI event-stream responses (each with its own server thread and producer) under the baton
     scheduler. The library's own ThreadPoolExecutor subclass stays in the loop: only the base class's submit() is redirected
     to the controlled-thread pool, so baize's submit() wrapper (context copy) runs for real."""
     import baize.wsgi.responses as WR
     import baize.concurrency as BC
     import concurrent.futures.thread as CFT
+    import time as _time
 
     S = VT.Sched(prefix, max_timeouts=max_timeouts)
+    # the clocks the code under test could read are virtual: `hold` seconds pass while the server writes out each item
+    old_clocks = (_time.monotonic, _time.time, _time.perf_counter)
+    _time.monotonic = _time.time = _time.perf_counter = lambda: S.clock
     VT.set_current(S)
     all_obs = [{"enter": 0, "exit": 0, "yielded": [], "got": [], "closed_ret": False, "server_exc": None, "start_calls": 0} for _ in range(streams)]
 
@@ -117,11 +121,12 @@ def run_wsgi_sse(prefix, n_items, raise_at, consume, line_points, max_timeouts, 
                     except StopIteration:
                         obs["exhausted"] = True
                         break
+                    S.clock += hold
                     k += 1
             except Boom:
                 obs["server_exc"] = "Boom"
-            except RuntimeError as e:  # e.g. a failure of the pool's work item surfacing through the response
-                obs["server_exc"] = f"RuntimeError: {e}"
+            except (RuntimeError, ValueError) as e:  # e.g. a failure of the pool's work item surfacing through the response
+                obs["server_exc"] = f"{type(e).__name__}: {e}"
             try:
                 S.point("server-close")
                 it.close()
@@ -144,6 +149,7 @@ def run_wsgi_sse(prefix, n_items, raise_at, consume, line_points, max_timeouts, 
     try:
         ok = S.start("server", main)
     finally:
+        _time.monotonic, _time.time, _time.perf_counter = old_clocks
         WR.queue, WR.SendEventResponse.thread_pool = old_queue, old_pool
         CFT.ThreadPoolExecutor.submit = old_submit
         VT.set_current(None)
@@ -559,9 +565,13 @@ def wsgi_configs(tier):
     for consume in (0, 1, None):
         for timeouts in (0, 1):
             out.append((1, -1, consume, timeouts, None, False, 1))  # raise_at = -1: the source's __iter__ raises
+    for consume in (None, 2):
+        for timeouts in (0, 1):
+            out.append((2, None, consume, timeouts, None, False, 1, 2.5))  # the server needs 2.5 ping intervals to write out each item
     out.append((1, None, None, 0, None, False, -2))  # streams = -2: one response object (re-iterable source) serving two overlapping requests
     out.append((1, None, 1, 0, None, False, -2))
-    return [c if len(c) == 7 else c + (False, 1) for c in out]
+    out = [c if len(c) >= 7 else c + (False, 1) for c in out]
+    return [c if len(c) == 8 else c + (0.0,) for c in out]
 
 
 def asgi_configs(tier):
@@ -624,14 +634,14 @@ def bounds_for(tier):
 def run_shard(desc, tier):
     r = R()
     if desc[0] == "wsgi_sse":
-        n, raise_at, consume, timeouts, empty_at, cleanup_raises, streams = wsgi_configs(tier)[desc[1]]
+        n, raise_at, consume, timeouts, empty_at, cleanup_raises, streams, hold = wsgi_configs(tier)[desc[1]]
         shared = streams < 0
         saturated = streams == 0
         streams = abs(streams) or 1
         outcomes = set()
         for line_points, bound in (bounds_for(tier) if streams == 1 else [(False, 1 if tier == "quick" else 2)]):
             def run(prefix):
-                return run_wsgi_sse(prefix, n, raise_at, consume, line_points, timeouts, empty_at, cleanup_raises, streams, shared, saturated)
+                return run_wsgi_sse(prefix, n, raise_at, consume, line_points, timeouts, empty_at, cleanup_raises, streams, shared, saturated, hold)
 
             def on_exec(x):
                 r.count("evaluations")
@@ -641,7 +651,7 @@ def run_shard(desc, tier):
                 outcomes.add((x.obs["deadlock"], x.obs["enter"], x.obs["exit"], len(x.obs["got"]), x.obs["server_exc"], tuple(x.obs["pool_futures"])))
                 if probs:
                     kind = "deadlock" if "DEADLOCK" in probs[0] else ("livelock" if "LIVELOCK" in probs[0] else probs[0].split(" ")[0])
-                    r.violation(f"wsgi_sse:{kind}", {"driver": "wsgi_sse", "n": n, "raise_at": raise_at, "consume": consume, "timeouts": timeouts, "empty_at": empty_at, "cleanup_raises": cleanup_raises, "streams": streams, "shared": shared, "saturated": saturated, "line_points": line_points, "schedule": list(x.choices)},
+                    r.violation(f"wsgi_sse:{kind}", {"driver": "wsgi_sse", "n": n, "raise_at": raise_at, "consume": consume, "timeouts": timeouts, "empty_at": empty_at, "cleanup_raises": cleanup_raises, "streams": streams, "shared": shared, "saturated": saturated, "hold": hold, "line_points": line_points, "schedule": list(x.choices)},
                                 f"WSGI SendEventResponse, producer of {n} items (fails at {raise_at}, empty event at {empty_at}, cleanup raises: {cleanup_raises}, {streams} overlapping stream(s)), server takes {consume} items then close(), {timeouts} ping timeout(s), schedule {x.obs['trace'][-14:]}: {probs[0]}")
             nexec, capped = dfs(run, on_exec, bound=bound)
         r.count("states", len(outcomes))
@@ -692,7 +702,7 @@ def finish(merged, tier):
 
 def replay(w):
     if w["driver"] == "wsgi_sse":
-        x = run_wsgi_sse(list(w["schedule"]), w["n"], w["raise_at"], w["consume"], w["line_points"], w["timeouts"], w.get("empty_at"), w.get("cleanup_raises", False), w.get("streams", 1), w.get("shared", False), w.get("saturated", False))
+        x = run_wsgi_sse(list(w["schedule"]), w["n"], w["raise_at"], w["consume"], w["line_points"], w["timeouts"], w.get("empty_at"), w.get("cleanup_raises", False), w.get("streams", 1), w.get("shared", False), w.get("saturated", False), w.get("hold", 0.0))
         probs = judge_wsgi_sse(x.obs, w["n"], w["raise_at"], w["consume"], w.get("empty_at"), w.get("cleanup_raises", False), w.get("shared", False))
         return bool(probs), {"problems": probs, "trace": x.obs["trace"][-30:]}
     if w["driver"] == "wsgi_stream":
